@@ -273,7 +273,11 @@ def judge (c : Case) : String :=
   -- (e) model = implementation
   match runOps sc c.ops false c.replies (St.init sc) with
   | (mits, ms, mrest) =>
-  if mits ≠ its then
+  -- an error must come "together with any row already assembled" (theorem
+  -- `error_with_assembled_row` makes the model the specification of that clause)
+  if (mits.zip its).any (fun (m, i) => m.err.isSome && m.err == i.err && m.res.isSome && i.res.isNone) then
+    s!"SPEC key=assembled-row-dropped-{dir}-{mode} model={String.intercalate ";" (mits.map itemStr)} impl={String.intercalate ";" (its.map itemStr)}"
+  else if mits ≠ its then
     s!"DIFF items model={String.intercalate ";" (mits.map itemStr)} impl={String.intercalate ";" (its.map itemStr)}"
   else if ms.trace ≠ c.trace then
     s!"DIFF trace model={String.intercalate ";" (ms.trace.map reqStr)} impl={String.intercalate ";" (c.trace.map reqStr)}"
